@@ -6,7 +6,7 @@ from .common import Run, split_spec, check_spec, corpus_cases, generic_replay, p
 PROP = "C02"
 MODULE = "PLS.Props.C02"
 THEOREMS = ["PLS.C02_param", "PLS.C02_outward_correct", "PLS.C02_chain", "PLS.C02_name",
-            "PLS.C02_param_position", "PLS.C02_multiline_not_excluded"]
+            "PLS.C02_param_position", "PLS.C02_multiline_excluded", "PLS.C02_plain_usage"]
 RULE = ("override chains of length 1-4: each link is `def foo(foo)` placed in the test module, an ancestor "
         "conftest (any level), a star-imported module, a plugin file or site-packages; the outermost link is a plain "
         "definition; tests use the name at several depths; registration order permuted; every column of every "
